@@ -95,7 +95,7 @@ def gen_case(rng):
     xml = to_xml(t, dn or None)
     expr = gen_expr(rng, t[2]) if rng.random() < 0.9 else gen_invalid(rng)
     nsarg = rng.choice([None, None, "p", "ponly"]) if "p:" not in expr else rng.choice(["p", "p", "ponly"])
-    if rng.random() < 0.03:
+    if rng.random() < 0.08:
         nsarg = "empty"
     return {"xml": xml, "ctx": 0 if rng.random() < 0.6 else rng.randrange(0, 1000), "expr": expr, "ns": nsarg}
 
@@ -228,7 +228,7 @@ def is_known(case, out):
             continue
         if f["key"] == "absolute-path-beside-root" and out.get("err") == "AssertionError" and case["expr"].startswith("/"):
             return f["key"]
-        if f["key"] == "empty-mapping-default-namespace" and case["ns"] == "empty":
+        if f["key"] == "unbound-prefix-found-after-creating" and case["ns"] == "empty" and "p:" in case["expr"]:
             return f["key"]
     return None
 
@@ -284,7 +284,7 @@ def run_cases(run: Run, cases, stream, lean_ok=True):
     for c, before, ctx, out, _ in rows:
         ns = ns_arg(c, ctx.namespace)
         dq = None if ns is None else [[k, v] for k, v in ns.items()]
-        dc = None if not ns else [[k, v] for k, v in ns.items()]
+        dc = None if ns is None else [[k, v] for k, v in ns.items()]
         reqs.append({"cmd": "foc", "tree": before, "next": max_id(before) + 1, "ctx": path_of(ctx), "expr": c["expr"],
                      "decls_query": dq, "decls_create": dc})
     models = run_driver(reqs) if lean_ok and rows else [None] * len(rows)
